@@ -5367,6 +5367,10 @@ class Parameterized(metaclass=ParameterizedMetaclass):
         # recreated and point to the new instance
         if _param__private.watchers:
             param_watchers = _param__private.watchers
+            # A watcher of several parameters is one object registered in
+            # several lists (batched dispatch recognises it by identity):
+            # recreate it once
+            rebuilt = {}
             for p, attrs in param_watchers.items():
                 for attr, watchers in attrs.items():
                     new_watchers = []
@@ -5385,7 +5389,9 @@ class Parameterized(metaclass=ParameterizedMetaclass):
                                 watcher_args[2] = _m_caller(self, fn._watcher_name)
                         elif get_method_owner(fn) is watcher.inst:
                             watcher_args[2] = getattr(self, fn.__name__)
-                        new_watchers.append(Watcher(*watcher_args))
+                        if id(watcher) not in rebuilt:
+                            rebuilt[id(watcher)] = Watcher(*watcher_args)
+                        new_watchers.append(rebuilt[id(watcher)])
                     param_watchers[p][attr] = new_watchers
 
         state.pop('param', None)
